@@ -168,11 +168,11 @@ def _(c):
 
 
 def _fields_grid(tier, rng):
-    """catalogue numbers {1, 5, 25544, 99999} x designator {empty, 98067A, 58002B, 20001ABC} x ndot {0, +-2.3e-6, +-1.2345e-3} x ndotdot/B* in
+    """catalogue numbers {0, 1, 5, 25544, 99999} x designator {empty, 98067A, 58002B, 20001ABC} x ndot {0, +-2.3e-6, +-1.2345e-3} x ndotdot/B* in
     {0, +-1.1606e-5, 9.9999e-1 x 10^k for k in -9..0} x e in {0, 1e-7, .1234567, .9999999} x angles {0, 0.0001, 180, 359.9999} x n in {0.5, 2.00612643,
     16.4} x element numbers {0, 9, 999, 9999} x rev {0, 7, 99999} x epochs 1957..2056 incl. day 366 -- seeded combinations (quick 300, thorough 5000)"""
     n = 300 if tier == "quick" else 5000
-    cats = [1, 5, 25544, 99999]
+    cats = [0, 1, 5, 25544, 99999]
     desig = ["", "98067A", "58002B", "20001ABC", "57001A", "56999ZZZ"]
     ndots = [0.0, 2.3e-6, -2.3e-6, 1.2345e-3, -1.2345e-3, 0.99999999e-1]
     drag = [0.0, 1.1606e-5, -1.1606e-5] + [s * 9.9999e-1 * 10 ** k for k in range(-9, 1) for s in (1, -1)] + [1.0e-5, 3.4473e-4]
